@@ -31,7 +31,7 @@ POOL = {
     15: ('echo', '10.0.0.15'),       # first seen in a circuit path
 }
 FLAGSETS = [('Running', 'Valid'), ('Guard', 'Running', 'Valid'), ('Authority', 'Running', 'Valid'),
-            ('Exit', 'Guard', 'Named', 'Running', 'Valid')]
+            ('Exit', 'Guard', 'Named', 'Running', 'Valid'), ('Authority', 'Guard', 'Running', 'Valid')]
 A_VARIANTS = [(), ('[2001:db8::1]:9001',), ('[2001:db8::1]:9001', '[2001:db8::2]:443')]
 
 
